@@ -3,6 +3,7 @@ package main
 // Wavefront placements, random operand histories, and the history runner.
 
 import (
+	"bytes"
 	"fmt"
 	"sync"
 
@@ -411,6 +412,9 @@ func genHistory(r *vlib.PRNG, c *catalogue, idx, nOps int) *history {
 					o.N = []int{1, 2, 4, 8, 12, 16}[r.Intn(6)] // as DS/FLAT stores ask for fewer bytes
 				}
 			}
+			if a != aReadOperand {
+				o.Scribble = r.Chance(1, 4)
+			}
 		}
 		h.Ops = append(h.Ops, o)
 	}
@@ -555,6 +559,7 @@ func runHistory(rec vlib.Recorder, c *catalogue, h *history, opt runOpts, st *st
 	quiet := opt.sweepEvery
 	m := newModel(h.Pl)
 	s := newStores(h.Pl)
+	s.keepHeld = true
 	witness := func(key string, i int, o *op, extra map[string]any) any {
 		if _, dup := witnessed.LoadOrStore(key, struct{}{}); dup {
 			return nil
@@ -568,6 +573,32 @@ func runHistory(rec vlib.Recorder, c *catalogue, h *history, opt runOpts, st *st
 			wit[k] = v
 		}
 		return wit
+	}
+	// checkHeld: every byte-slice read result handed out so far must still hold
+	// the value it had when it was handed out
+	checkHeld := func(i int, o *op) {
+		for _, hr := range s.held {
+			if hr.opIdx < 0 {
+				hr.opIdx = i
+			}
+			if hr.bad || bytes.Equal(hr.buf, hr.want) {
+				continue
+			}
+			hr.bad = true
+			if quiet {
+				continue
+			}
+			later := "typed"
+			if o.od != nil {
+				later = o.a.class()
+			}
+			key := fmt.Sprintf("C07|%s|held-read-result|%s|changed-by-later-%s", backName[hr.back], hr.o.od.Kind, later)
+			what := fmt.Sprintf("%s store: the %d bytes returned by %s of %s lane %d (wave %d, history %s step %d) were %x; after step %d (%s of %s lane %d, wave %d) the same slice holds %x",
+				backName[hr.back], len(hr.want), hr.o.API, describe(hr.o), hr.o.Lane, hr.o.W, h.Name, hr.opIdx, hr.want, i, o.API, describe(o), o.Lane, o.W, hr.buf)
+			rec.Violation(key, what, witness(key, i, o, map[string]any{"held_read_step": hr.opIdx, "held_read": hr.o,
+				"handed_out": fmt.Sprintf("%x", hr.want), "now": fmt.Sprintf("%x", hr.buf)}))
+			st.cnt["deviations_reported"]++
+		}
 	}
 	// judge reports the verdicts of one step; it returns false when the history
 	// cannot go on (a general-purpose register file no longer matches the model).
@@ -672,8 +703,13 @@ func runHistory(rec vlib.Recorder, c *catalogue, h *history, opt runOpts, st *st
 	// ---- the random history ----
 	for i, o := range h.Ops {
 		v := apply(m, s, o)
+		checkHeld(i, o)
 		if !quiet {
 			account(st, o, v, m)
+			st.cnt["held_read_results_rechecked"] += int64(len(s.held))
+			if o.Scribble {
+				st.cnt["read_results_overwritten_by_caller"] += numBackings
+			}
 		}
 		if !judge(i, o, v, "random phase") {
 			if len(pending) > 0 {
@@ -691,6 +727,7 @@ func runHistory(rec vlib.Recorder, c *catalogue, h *history, opt runOpts, st *st
 	st.cnt["sweeps"]++
 	st.cnt["cells_swept"] += int64(len(h.Pl)) * (modelledCells + 6) * 2
 	st.cnt["timing_file_bytes_compared"] += 4 * (sgprFileRegs + numSIMD*vgprFileRegs)
+	st.cnt["held_read_results_alive_at_end"] += int64(len(s.held))
 	return nil, sweep(m, s), nil
 }
 
